@@ -81,6 +81,31 @@ def kinds():
                                      fresh=lambda a: kk.Keccak(b=1600, c=512, len=256))
     K['sha3_256'] = Kind('sha3_256', lambda a: sha.SHA3(256), {'m1': lambda o, a: o(a['m1']), 'm2': lambda o, a: o(a['m2']),
                                                                  'raw': lambda o, a: kk.Keccak.__call__(o, a['m1'], bitlen=5)})
+    # MD6 (keyed, tree and sequential) and Skein (keyed; tree parameters) - Skein keeps its chaining value G on the object
+    def _md6(a, L):
+        h = md.MD6(256, a['k1'], L)
+        h.rounds = 2
+        return h
+    m6 = {
+        'm1': lambda o, a: o(a['m1']),
+        'm2': lambda o, a: o(a['m2']),
+        'bits': lambda o, a: o(a['m2'], bitlen=8 * len(a['m2']) - 3),
+        'long': lambda o, a: o(a['blk'][:100] * 6),
+        'bad': lambda o, a: o(a['m1'], bitlen=8 * len(a['m1']) + 9),
+    }
+    K['md6'] = Kind('md6', lambda a: _md6(a, 64), m6)
+    K['md6.seq'] = Kind('md6.seq', lambda a: _md6(a, 0), m6)
+    import crysp.skein as skn
+    skc = {
+        'm1': lambda o, a: o(a['m1']),
+        'm2': lambda o, a: o(a['m2']),
+        'bits': lambda o, a: o(a['m2'], bitlen=8 * len(a['m2']) - 3),
+        'long': lambda o, a: o(a['blk'][:70]),
+        'upd': lambda o, a: o.update(a['m2']),
+        'bad': lambda o, a: o(a['m1'], bitlen=8 * len(a['m1']) + 9),
+    }
+    K['skein256'] = Kind('skein256', lambda a: skn.Skein(256, 256, key=a['k1'], prs=a['k2']), skc, patches='skein')
+    K['skein256.tree'] = Kind('skein256.tree', lambda a: skn.Skein(256, 256, Yl=1, Yf=1, Ym=2), {k: v for k, v in skc.items() if k in ('m1', 'long', 'upd')}, patches='skein')
     # HMAC
     from crysp.hmac import HMAC
     hc = {
@@ -155,7 +180,7 @@ def kinds():
 
 
 KINDNAMES = ['sha1', 'sha256', 'sha512_256', 'md4', 'md5', 'blake256', 'blake256.singleton', 'blake2s', 'blake2s.singleton', 'keccak200',
-             'keccak_256.singleton', 'sha3_256', 'hmac_sha1', 'aes128', 'aes128.other', 'des', 'tdea', 'serpent', 'threefish256', 'ecb', 'cbc', 'ctr',
+             'keccak_256.singleton', 'sha3_256', 'md6', 'md6.seq', 'skein256', 'skein256.tree', 'hmac_sha1', 'aes128', 'aes128.other', 'des', 'tdea', 'serpent', 'threefish256', 'ecb', 'cbc', 'ctr',
              'cts_ecb', 'cts_cbc', 'salsa20', 'chacha', 'crc32', 'nilsimsa', 'tlsh', 'tlsh.singleton']
 
 CALLS = {
@@ -165,6 +190,8 @@ CALLS = {
     'blake2s': ['m1', 'm2', 'outlen', 'salt', 'tree', 'bad', 'long'], 'blake2s.singleton': ['m1', 'm2', 'outlen', 'salt', 'tree', 'bad', 'long'],
     'keccak200': ['m1', 'm2', 'bits', 'rate', 'duplex', 'bad', 'badrate'], 'keccak_256.singleton': ['m1', 'm2', 'bits', 'bad', 'badrate'], 'sha3_256': ['m1', 'm2', 'raw'],
     'hmac_sha1': ['m1', 'm2'],
+    'md6': ['m1', 'm2', 'bits', 'long', 'bad'], 'md6.seq': ['m1', 'm2', 'bits', 'long', 'bad'],
+    'skein256': ['m1', 'm2', 'bits', 'long', 'upd', 'bad'], 'skein256.tree': ['m1', 'long', 'upd'],
     'aes128': ['enc1', 'enc2', 'dec1', 'bad'], 'aes128.other': ['enc1', 'dec1'], 'des': ['enc1', 'enc2', 'dec1', 'bad'], 'tdea': ['enc1', 'dec1', 'bad'],
     'serpent': ['enc1', 'enc2', 'dec1', 'bad'], 'threefish256': ['enc1', 'enc2', 'dec1', 'bad'],
     'ecb': ['enc1', 'enc2', 'encblk', 'decenc', 'baddec'], 'cbc': ['enc1', 'enc2', 'encblk', 'decenc', 'baddec'], 'ctr': ['enc1', 'enc2', 'encblk', 'decenc'],
@@ -180,11 +207,11 @@ class History(Case):
     prop = 'C10'
     name = 'C10.history'
     timeout_s = 900
-    bounds = ('object kinds: SHA1, SHA2(256), SHA2(512,256), MD4, MD5, Blake(256) and the blake256 singleton, Blake2(256) and the blake2s singleton, Keccak(b=200) and the keccak_256 singleton, SHA3(256), '
+    bounds = ('object kinds: SHA1, SHA2(256), SHA2(512,256), MD4, MD5, Blake(256) and the blake256 singleton, Blake2(256) and the blake2s singleton, Keccak(b=200) and the keccak_256 singleton, SHA3(256), keyed MD6 (tree and sequential mode, 2 rounds), keyed Skein-256 and Skein-256 with tree parameters (Threefish uninterpreted), '
               'HMAC(SHA1), AES, AES after another instance was used, DES, TDEA, Serpent, Threefish-256, ECB/CBC/CTR/CTS_ECB/CTS_CBC over a stand-in cipher, Salsa20, Chacha, crc module, '
               'Nilsimsa, TLSH and the tlsh singleton (the last three on concrete inputs); per-kind alphabets of 2..7 calls incl. optional parameters, raising calls and unfinished streaming; '
               'every history of length <= 2 (quick) / <= 3 (thorough) ending in a value-returning call; arguments symbolic')
-    outside = 'histories longer than 3; MD6 and Skein objects (see C17/C12); similarity digests only on two concrete inputs'
+    outside = 'histories longer than 3; similarity digests only on two concrete inputs'
 
     @property
     def uf_concrete(self):
@@ -194,6 +221,9 @@ class History(Case):
 
         class D(dict):
             def __missing__(s, k):
+                if k.startswith('TF'):
+                    from props import c12
+                    return c12.UFC[k]
                 return c05.UFC[k]
         r = D(d)
         return r
@@ -234,6 +264,10 @@ class History(Case):
         elif K.patches in ('aes128', 'des', 'tdea', 'serpent'):
             from props import c02
             ps = c02.patches_for(K.patches)
+        if K.patches == 'skein':
+            from props import c12
+            import crysp.skein as sk
+            ps = ps + [(sk, 'Threefish', c12.tf_stub())]
         st.enter_context(patched(ps))
         if K.patches == 'ed':
             from props import c05
